@@ -30,6 +30,21 @@ use iggy::topics::get_topic::GetTopic;
 use iggy::topics::get_topics::GetTopics;
 use iggy::topics::purge_topic::PurgeTopic;
 use iggy::users::delete_user::DeleteUser;
+use iggy::compression::compression_algorithm::CompressionAlgorithm;
+use iggy::messages::flush_unsaved_buffer::FlushUnsavedBuffer;
+use iggy::models::user_status::UserStatus;
+use iggy::personal_access_tokens::create_personal_access_token::CreatePersonalAccessToken;
+use iggy::personal_access_tokens::delete_personal_access_token::DeletePersonalAccessToken;
+use iggy::personal_access_tokens::login_with_personal_access_token::LoginWithPersonalAccessToken;
+use iggy::system::get_client::GetClient;
+use iggy::topics::create_topic::CreateTopic;
+use iggy::topics::update_topic::UpdateTopic;
+use iggy::users::change_password::ChangePassword;
+use iggy::users::create_user::CreateUser;
+use iggy::users::login_user::LoginUser;
+use iggy::users::update_user::UpdateUser;
+use iggy::utils::expiry::IggyExpiry;
+use iggy::utils::topic_size::MaxTopicSize;
 use iggy::users::get_user::GetUser;
 use serde_json::{json, Value};
 use server::verif::ServerCommand;
@@ -93,6 +108,43 @@ fn build(q: &Value) -> (u32, Bytes) {
         "create_stream" => with_code(&CreateStream { stream_id: opt(&q["id"]), name: s(q, "name").to_string() }),
         "update_stream" => with_code(&UpdateStream { stream_id: id(s_), name: s(q, "name").to_string() }),
         "create_group" => with_code(&CreateConsumerGroup { stream_id: id(s_), topic_id: id(t_), group_id: opt(&q["id"]), name: s(q, "name").to_string() }),
+        "create_topic" => with_code(&CreateTopic {
+            stream_id: id(s_),
+            topic_id: opt(&q["id"]),
+            partitions_count: u(q, "n") as u32,
+            compression_algorithm: CompressionAlgorithm::from_code(u(q, "comp") as u8).unwrap(),
+            message_expiry: IggyExpiry::from(u(q, "expiry")),
+            max_topic_size: MaxTopicSize::from(u(q, "max")),
+            replication_factor: q["repl"].as_u64().map(|x| x as u8),
+            name: s(q, "name").to_string(),
+        }),
+        "update_topic" => with_code(&UpdateTopic {
+            stream_id: id(s_),
+            topic_id: id(t_),
+            compression_algorithm: CompressionAlgorithm::from_code(u(q, "comp") as u8).unwrap(),
+            message_expiry: IggyExpiry::from(u(q, "expiry")),
+            max_topic_size: MaxTopicSize::from(u(q, "max")),
+            replication_factor: q["repl"].as_u64().map(|x| x as u8),
+            name: s(q, "name").to_string(),
+        }),
+        "create_user" => with_code(&CreateUser { username: s(q, "name").to_string(), password: s(q, "pw").to_string(), status: UserStatus::from_code(u(q, "status") as u8).unwrap(), permissions: None }),
+        "update_user" => with_code(&UpdateUser {
+            user_id: id(s_),
+            username: q["uname"].as_str().map(|x| x.to_string()),
+            status: q["status"].as_u64().map(|x| UserStatus::from_code(x as u8).unwrap()),
+        }),
+        "change_password" => with_code(&ChangePassword { user_id: id(s_), current_password: s(q, "cur").to_string(), new_password: s(q, "new").to_string() }),
+        "login_user" => with_code(&LoginUser {
+            username: s(q, "name").to_string(),
+            password: s(q, "pw").to_string(),
+            version: q["version"].as_str().map(|x| x.to_string()),
+            context: q["context"].as_str().map(|x| x.to_string()),
+        }),
+        "flush" => with_code(&FlushUnsavedBuffer { stream_id: id(s_), topic_id: id(t_), partition_id: u(q, "n") as u32, fsync: q["fsync"].as_bool().unwrap() }),
+        "get_client" => with_code(&GetClient { client_id: u(q, "n") as u32 }),
+        "create_pat" => with_code(&CreatePersonalAccessToken { name: s(q, "name").to_string(), expiry: IggyExpiry::from(u(q, "expiry")) }),
+        "delete_pat" => with_code(&DeletePersonalAccessToken { name: s(q, "name").to_string() }),
+        "login_pat" => with_code(&LoginWithPersonalAccessToken { token: s(q, "name").to_string() }),
         "send" => {
             let pv = unhex(s(q, "pv"));
             let messages: Vec<Message> = q["msgs"]
